@@ -50,6 +50,8 @@ def candidates(case):
         new = {"spec": S.clone(spec), "knobs": dict(case['knobs']),
                "choices": None if case['choices'] is None
                else list(case['choices']), "aux": dict(case['aux'])}
+        if 'attrs2' in case:
+            new['attrs2'] = {k: dict(v) for k, v in case['attrs2'].items()}
         return new
     # delete members (deep schedulers first)
     for path in sorted(paths, key=len, reverse=True):
